@@ -315,6 +315,33 @@ def r2_single_caller(ck, rule="C04-R2"):
                        "the rollback call does not dominate the is_rename test", mfr.where())
 
 
+ORDER_PRESERVING = ("Enumerate", "Map", "Filter", "FilterMap", "Inspect", "Copied", "Cloned", "Take", "Skip", "TakeWhile", "SkipWhile", "Peekable",
+                    "MapWhile", "Fuse")
+LIFO_BASES = ("core::slice::iter::Iter<", "core::slice::iter::IterMut<", "alloc::vec::drain::Drain<", "alloc::vec::into_iter::IntoIter<")
+
+
+def lifo_iterator_type(ity):
+    """True when the iterator type yields the elements of a slice / vector from the back: order-preserving adaptors around exactly one
+    Rev (Rev<Enumerate<slice::Iter>> numbers the elements first and walks them backwards; Enumerate<Rev<..>> walks backwards as well)."""
+    t = ity
+    revs = 0
+    while True:
+        t = t.strip()
+        while t.startswith("&mut ") or t.startswith("&"):
+            t = t[5:] if t.startswith("&mut ") else t[1:]
+        if any(t.startswith(b) for b in LIFO_BASES):
+            return revs % 2 == 1
+        lt = t.find("<")
+        if lt < 0:
+            return False
+        name = t[:lt].split("::")[-1]
+        if name == "Rev":
+            revs += 1
+        elif name not in ORDER_PRESERVING:
+            return False
+        t = t[lt + 1:]
+
+
 def r3_lifo(ck, rule="C04-R3"):
     prog, cg = ck.prog, ck.cg
     ctors, aborting = discover_rollback_api(ck)
@@ -343,8 +370,7 @@ def r3_lifo(ck, rule="C04-R3"):
             for il in pt.iterator_loops(fn):
                 if il["head"] == h:
                     ity = il["iter_ty"]
-                    if any(("Rev<" + base) in ity for base in ("core::slice::iter::Iter<", "alloc::vec::drain::Drain<", "alloc::vec::into_iter::IntoIter<")) \
-                            and "PatchStatus" in ity and il["callee"]["path"].endswith("Iterator::next"):
+                    if lifo_iterator_type(ity) and "PatchStatus" in ity and il["callee"]["path"].endswith("Iterator::next"):
                         ok = True
                         detail = "reversed slice iterator (%s)" % ity
                     else:
